@@ -5,7 +5,7 @@ import glob, json, os, shutil, subprocess, sys, tempfile
 ROOT = "/verif"
 args = [a for a in sys.argv[1:] if not a.startswith("--")]
 nn = "--no-native" in sys.argv
-base = "/tmp/seed3files"
+base = os.environ.get("SEEDBASE", "/tmp/seed3files")
 cases = []
 for d in sorted(glob.glob(base + "/C*")):
     pid = os.path.basename(d)
